@@ -6,7 +6,9 @@ require (
 	github.com/cespare/xxhash/v2 v2.3.0
 	github.com/coder/websocket v1.8.14
 	github.com/jensneuse/abstractlogger v0.0.4
+	github.com/tidwall/gjson v1.18.0
 	github.com/vektah/gqlparser/v2 v2.5.30
+	github.com/wundergraph/astjson v1.1.0
 	github.com/wundergraph/graphql-go-tools/execution v0.0.0
 	github.com/wundergraph/graphql-go-tools/v2 v2.4.4
 	google.golang.org/grpc v1.80.0
@@ -33,11 +35,9 @@ require (
 	github.com/rs/xid v1.6.0 // indirect
 	github.com/sirupsen/logrus v1.9.3 // indirect
 	github.com/stretchr/testify v1.11.1 // indirect
-	github.com/tidwall/gjson v1.18.0 // indirect
 	github.com/tidwall/match v1.1.1 // indirect
 	github.com/tidwall/pretty v1.2.1 // indirect
 	github.com/tidwall/sjson v1.2.5 // indirect
-	github.com/wundergraph/astjson v1.1.0 // indirect
 	github.com/wundergraph/cosmo/router v0.0.0-20260611115430-e8a965a40952 // indirect
 	github.com/wundergraph/go-arena v1.3.0 // indirect
 	go.uber.org/multierr v1.11.0 // indirect
